@@ -31,7 +31,7 @@ def supported(f, kind):
 
 class C17(Prop):
     id = 'C17'
-    rule_added = 'Enumerated: wide specifications (14-16 chained operands or nested operators of each kind; the work done, counted in rtamt function bodies entered, must stay within 300 per syntax node) and deep ones (190-320 operands/levels; must return normally) on the four monitor kinds. 2%: 250-450 supplied variables that the formula does not use. Offline objects are evaluated again on a shorter (down to one sample) and on a longer trace. Dense online feeds also staggered (variables start at different samples) and with an idle poll. 20% of the dense online cases feed the inputs as (nested) fields of one object-typed variable.'
+    rule_added = 'Enumerated: prev/s_prev/next/s_next/rise/fall alone, beside, under and above a bounded-future operator on the dense-time kinds (after pastify() too). Enumerated: wide specifications (14-16 chained operands or nested operators of each kind; the work done, counted in rtamt function bodies entered, must stay within 300 per syntax node) and deep ones (190-320 operands/levels; must return normally) on the four monitor kinds. 2%: 250-450 supplied variables that the formula does not use. Offline objects are evaluated again on a shorter (down to one sample) and on a longer trace. Dense online feeds also staggered (variables start at different samples) and with an idle poll. 20% of the dense online cases feed the inputs as (nested) fields of one object-typed variable.'
     rule = ('random formulas over the whole operator alphabet x the 6 monitor configurations {discrete offline, '
             'discrete online, discrete online after pastify, dense offline, dense online, dense online after '
             'pastify} x degenerate but well-formed data shapes (one-sample traces, a declared variable the formula '
@@ -291,6 +291,22 @@ class C17(Prop):
     def extra(self, ctx):
         if ctx.shard != 0:
             return
+        # the operators that exist in discrete time only, in every position relative to a bounded-future operator, on
+        # the dense-time kinds (after pastify() too): rejected with RTAMTException by the first evaluation
+        N, V, C = lang.N, lang.V, lang.C
+        px, py = N('geq', V('x'), C(1.0)), N('geq', V('y'), C(1.0))
+        fut = N('eventually', py, ivl=(0, 2))
+        for o in DISCRETE_ONLY:
+            forms = [N(o, px), N('and', N(o, px), fut), N('or', fut, N(o, px)), N('eventually', N(o, px), ivl=(0, 1)),
+                     N(o, fut), N('and', N(o, N('once', px)), N('always', py, ivl=(1, 2)))]
+            for f in forms:
+                for kind in ('ct_off', 'ct_on', 'ct_on_pastified'):
+                    if kind == 'ct_on' and lang.has_future(f):
+                        continue
+                    self.check(ctx, {'formula': f, 'kind': kind, 'data': lang.gen_trace(ctx.rng, ['x', 'y', 'u_extra'], 6),
+                                     'n': 4, 're': [], 'shape': 'plain', 'perm': 0.9, 'feed': 'disjoint',
+                                     'stagger': [0, 0, 0, 0], 'structs': False})
+                    ctx.count('class:discrete-only-operators-in-dense-time')
         for kind in ('dt_off', 'dt_on', 'ct_off', 'ct_on'):
             for shape, k in self.WIDE:
                 if shape in ('neg', 'abs', 'sum', 'not', 'xor', 'mix'):
